@@ -147,18 +147,18 @@ def verus_scalar_units(plan):
     plan.assumptions.append("Verus: signed `/` is specified only for non-negative operands and signed `%` not at all; signed division/remainder with negative operands is decided by Kani for i8 only (quick) / where CBMC finishes (thorough)")
 
 
-def modname(op):
-    return "verif_c01_" + op
+def modname(op, prop="C01"):
+    return "verif_%s_%s" % (prop.lower(), op)
 
 
-def gen_path(op):
-    return os.path.join(GEN, "C01", "k_%s.rs" % op)
+def gen_path(op, prop="C01"):
+    return os.path.join(GEN, prop, "k_%s.rs" % op)
 
 
-def harness_modules():
+def harness_modules(prop="C01"):
     out = []
     for op, d in list(OPS.items()) + list(UNOPS.items()):
-        out.append(dict(crate=d["crate"], file=d["file"], mod=modname(op), gen="C01/k_%s.rs" % op))
+        out.append(dict(crate=d["crate"], file=d["file"], mod=modname(op, prop), gen="%s/k_%s.rs" % (prop, op)))
     return out
 
 
@@ -184,16 +184,20 @@ def select(kinds, tier, seed, op, forms):
     return [(k, sel[k]) for k in kinds]
 
 
-def plan(plan, tier, seed, prop="C01"):
+def plan(plan, tier, seed, prop="C01", selector=None, twice=None):
     shapes = SHAPES_T if tier == "thorough" else [SHAPE_Q]
+    pfx = "vk%s_" % prop.lower()
+    if twice is None:
+        twice = (tier == "thorough")
+    sel_fn = selector or select
     groups = {}
     only = os.environ.get("VERIF_ONLY_OPS")
     for op, d in OPS.items():
         hs = []
         if only and op not in only.split(","):
-            plan.harness_files[gen_path(op)] = "// not selected\n"
+            plan.harness_files[gen_path(op, prop)] = "// not selected\n"
             continue
-        sel = select(d["kinds"], tier, seed, op, kgen.BIN_FORMS)
+        sel = sel_fn(d["kinds"], tier, seed, op, kgen.BIN_FORMS)
         kinds = [k for k, _ in sel]
         for T, forms_T in sel:
             isint = T in INTS
@@ -214,13 +218,13 @@ def plan(plan, tier, seed, prop="C01"):
                     continue
                 for (R, C) in (shapes if form[0] != "SS" else [shapes[0]]):
                     shp = "" if form[0] == "SS" else "_%dx%d" % (R, C)
-                    fn = "vkc01_%s_%s_%s%s" % (op, form[0].lower(), T, shp)
+                    fn = pfx + "%s_%s_%s%s" % (op, form[0].lower(), T, shp)
                     exact = exact_stmt(op, T) if (form[0] == "SS" and isint and d["cls"] == "arith") else None
                     unwind = None
                     if op == "pow":
                         unwind = 40
                     text = kgen.bin_harness(fn, d["struct"], T, O, form, R, C, pre, oracle,
-                                            generic=(d["cls"] != "logic"), exact=exact, unwind=unwind, twice=(tier == "thorough"))
+                                            generic=(d["cls"] != "logic"), exact=exact, unwind=unwind, twice=twice)
                     hs.append((fn, text))
                     loopfree = form[0] == "SS"
                     ob = plan.ob("%s.%s.%s.%s%s" % (prop, op, form[0], T, shp), "kani",
@@ -230,16 +234,16 @@ def plan(plan, tier, seed, prop="C01"):
                                  what="%s%s<%s>::solve: out has the broadcast shape, out[r,c] == lhs[..] %s rhs[..], operands unchanged, second solve is a no-op" % (
                                      d["struct"], form[0], T, op))
                     groups.setdefault(d["crate"], {})[fn] = ob
-        plan.harness_files[gen_path(op)] = kgen.module_text(hs, "vkreplay_c01_" + op)
+        plan.harness_files[gen_path(op, prop)] = kgen.module_text(hs, "vkreplay_%s_%s" % (prop.lower(), op))
         plan.functions.append("%s: %s{SS,SMD,SRD,SVD,MDS,RDS,VDS,MDMD,RDRD,VDVD,MDVD,VDMD,MDRD,RDMD}<T>::solve for T in %s (kernel macros %s_op, _vec_op, _scalar_lhs_op, _scalar_rhs_op, _mat_vec_op, _vec_mat_op, _mat_row_op, _row_mat_op)" % (
             d["file"], d["struct"], kinds, op))
     # unary
     for op, d in UNOPS.items():
         hs = []
         if only and op not in only.split(","):
-            plan.harness_files[gen_path(op)] = "// not selected\n"
+            plan.harness_files[gen_path(op, prop)] = "// not selected\n"
             continue
-        sel = select(d["kinds"], tier, seed, op, ["S", "M", "R", "V"])
+        sel = sel_fn(d["kinds"], tier, seed, op, ["S", "M", "R", "V"])
         for T, forms_T in sel:
             if op == "neg":
                 pre = "{a}.checked_neg().is_some()" if T in INTS else None
@@ -256,19 +260,19 @@ def plan(plan, tier, seed, prop="C01"):
                     continue
                 for (R, C) in (shapes if form != "S" else [shapes[0]]):
                     shp = "" if form == "S" else "_%dx%d" % (R, C)
-                    fn = "vkc01_%s_%s_%s%s" % (op, form.lower(), T, shp)
-                    text = kgen.un_harness(fn, sexpr, T, T, form, R, C, pre, oracle, marker=True, twice=(tier == "thorough"))
+                    fn = pfx + "%s_%s_%s%s" % (op, form.lower(), T, shp)
+                    text = kgen.un_harness(fn, sexpr, T, T, form, R, C, pre, oracle, marker=True, twice=twice)
                     hs.append((fn, text))
                     ob = plan.ob("%s.%s.%s.%s%s" % (prop, op, form, T, shp), "kani", "proved" if form == "S" else "bounded",
                                  bound="" if form == "S" else "operand %dx%d" % (R, C), functions=[sexpr + "::solve"],
                                  what="%s::solve: out[i] == %s arg[i], shape kept, operand unchanged, second solve is a no-op" % (sexpr, op))
                     groups.setdefault(d["crate"], {})[fn] = ob
-        plan.harness_files[gen_path(op)] = kgen.module_text(hs, "vkreplay_c01_" + op)
+        plan.harness_files[gen_path(op, prop)] = kgen.module_text(hs, "vkreplay_%s_%s" % (prop.lower(), op))
         plan.functions.append("%s: %s" % (d["file"], "NegateS/NegateV" if op == "neg" else "NotS/NotV"))
     for crate, hmap in groups.items():
-        plan.kani.append(dict(package=crate, filters=["vkc01_"], harness=hmap, timeout=3300,
-                              replay_entry=lambda h: "vkreplay_c01_" + h.split("_")[1]))
-    if not only:
+        plan.kani.append(dict(package=crate, filters=[pfx], harness=hmap, timeout=3300,
+                              replay_entry=lambda h, p=prop.lower(): "vkreplay_%s_%s" % (p, h.split("_")[1])))
+    if not only and prop == "C01":
         verus_scalar_units(plan)
     plan.trusted += ["Verus 0.2026.09.13 / Z3 (scalar kernels, K)", "Kani 0.68 MIR->goto translation and CBMC 6.11 (bit-precise, incl. IEEE-754)", "nalgebra 0.34 is executed, not modelled",
                      "rustc; mirror = /repo sources + appended cfg(kani) harness modules only"]
